@@ -41,6 +41,9 @@ BROKEN_SCALARS = ['%', '%s', '%(x)s', '%d kg', '{0}', '{x}', '100%%', '2020-13-0
                   '1e999', '-1e999kg', 'C(-,1)', 'C(,)', 'C(1,)', 'C(1)', 'C(91,181)', '@', '@a "x', '`abc', '`\\q`', 'Bin(', 'Bin(a', 'Foo(1)', 'Foo("x"', '[1', '[1,,2]',
                   '{a:}', '{A:1}', '{a:1', '<<ver:"3.0"\na\n1\n', '<<>>', '1__', '_1', '--1', '1.', '.5', '1.e3', '1e', '1e+', 'NaNx', 'INFINITY', 'TT', 'NN', 'n',
                   '\x00', u'\ufffe', '', ' ', '\n', '1 2', '"a" "b"', '2020-01-01T00:00:00', '2020-01-01T00:00', '0000-00-00', '9999-99-99', '99:99:99',
+                  # repeated names: column, grid tag, column tag, dict tag (accepted or refused, but only with a ValueError)
+                  '<<ver:"3.0"\nsite,dis,site\n"a","b","c"\n>>', '[<<ver:"3.0"\na,a\n1,2\n>>]', '{a:1 a:2}', '{a a}', '<<ver:"3.0" m:1 m:2\na\n1\n>>',
+                  '<<ver:"3.0"\na x:1 x:2\n1\n>>', '{k:<<ver:"3.0"\nb,b\n1,2\n>>}', '<<ver:"3.0"\na\n1,2\n>>', '<<ver:"3.0"\na,b\n1\n>>',
                   '9999-12-31T23:59:59Z Brisbane', '0001-01-01T00:00:00Z New_York', '0001-01-01T00:00:00+14:00', '9999-12-31T23:59:59-12:00 UTC',
                   '0001-01-01T00:00:00Z UTC', '9999-12-31T23:59:59.999999Z Chatham', '12:34:56.', '12:34:56.1234567890123', '1' * 400, '"' + 'a' * 5000 + '"', '[' * 3 + ']' * 3, '{a:{b:{c:1}}}']
 
@@ -391,6 +394,12 @@ def judge_scalar(hs, s, ver, st, origin):
         try:
             ref = drop_unknown_zones(refzinc.read_scalar(s, ver))
         except Exception:  # noqa
+            # accepted by hszinc, refused by the strict reader: a mis-parse only if the text is structurally broken under ANY reading
+            if '\n' not in s and s.strip(' ') == s:
+                why = definitely_broken('ver:"%s"\na\n%s\n' % (ver, s))
+                if why and why not in ('illegal first column name',):
+                    st.fail('structurally-broken-scalar-accepted', {'origin': origin, 'why': why}, case, {'scalar': s[:200], 'value': repr(v)[:200]})
+                    return
             st.count('lenient_accepts')
             return
         try:
